@@ -63,6 +63,7 @@ fn fired_list(r: &RunStats) -> Vec<(&'static str, u64)> {
         ("delay: segment delayed", f.delay),
         ("eof: stdin closed by client", f.eof),
         ("eof: stdin closed mid-frame", f.eof_mid_frame),
+        ("read-error: stdin fails with an I/O error", f.read_error),
         ("epipe: client closed its read end", f.epipe),
         ("stall-rx: client stopped reading", f.stall_rx),
         ("short-write: stdout accepted a strict prefix", f.short_write),
